@@ -169,8 +169,9 @@ func levelTypes() []Level {
 }
 
 // towers enumerates the nesting structures of the map-typed families, simplest first.
-// quick: depth 0 and 1 complete; depth 2 with the same shape on every level (all 4^3 kind combinations).
-// thorough: depth 2 complete (16^3).
+// quick: depth 0 and 1 complete (16, 256 towers); depth 2 with the same shape on every level and the same
+// kind on the two outer levels (4 shapes x 4 outer kinds x 4 inner kinds = 64 towers; every adjacent pair of
+// kinds is already covered at depth 1). thorough: depth 2 complete (16^3 = 4096 towers).
 func towers(quick bool, maxDepth int) [][]Level {
 	lt := levelTypes()
 	var out [][]Level
@@ -188,7 +189,7 @@ func towers(quick bool, maxDepth int) [][]Level {
 		for _, a := range lt {
 			for _, b := range lt {
 				for _, c := range lt {
-					if quick && !(a.Shape == b.Shape && b.Shape == c.Shape) {
+					if quick && !(a.Shape == b.Shape && b.Shape == c.Shape && a.Kind == b.Kind) {
 						continue
 					}
 					out = append(out, []Level{a, b, c})
